@@ -419,8 +419,9 @@ static void prop(Tape &t, Ctx &c) {
     if (secret) {
         // "the peer's Finished value matches the receiver's own transcript" is meant under the session's own secret: whatever else the trace does, a peer
         // that keys an abbreviated handshake with another master secret must never get a completed handshake
-        if (v.done_at >= 0) { v.viol_at = v.done_at; v.done_at = -1; v.unk_at = -1; v.weak = false; v.why = "Finished (and record protection) computed under a master secret that is not the session's"; }
-        v.sig = fmt("completed-resumption-with-foreign-secret:%s", secret == 1 ? "zero" : "random");
+        // (only where the puppet really uses it: a trace that is legal for a FULL handshake contains a ClientKeyExchange, which makes the puppet compute the real secret)
+        if (m.resumed && v.done_at >= 0) { v.viol_at = v.done_at; v.done_at = -1; v.unk_at = -1; v.weak = false; v.why = "Finished (and record protection) computed under a master secret that is not the session's"; }
+        if (v.viol_at >= 0 && v.done_at < 0) v.sig = fmt("completed-resumption-with-foreign-secret:%s", secret == 1 ? "zero" : "random");
     }
     // data right behind the puppet's Finished while the victim's Finished is still outstanding (client in a full handshake, server in an abbreviated one):
     // RFC 5246 7.4.9 says wait, RFC 7918 false start says a client may; the receiver may or may not take it
